@@ -4,6 +4,7 @@ import (
 	"fmt"
 	"go/token"
 	"go/types"
+	"sort"
 	"strings"
 
 	"verifchk/internal/an"
@@ -28,6 +29,8 @@ func runC12(c *an.Ctx) {
 	r12g(c)
 	r12h(c)
 	r12i(c)
+	r12j(c)
+	r12k(c)
 }
 
 const ccPkg = "core/controlcommands"
@@ -223,6 +226,68 @@ func r12d(c *an.Ctx) {
 		msg = fmt.Sprintf("the pending call registered here can still be registered when RunCommand returns at %s: a late reply would complete a call nobody waits for, and the map grows", c.PosStr(leak.Pos()))
 	}
 	c.Ob("(*core/controlcommands.Servent).RunCommand|pending-unregistered", reg.Pos(), leak == nil && len(through) >= 3, "%s", msg)
+	// the call is registered before the command leaves: a reply can only be attributed to a call that is already pending
+	var send ssa.Instruction
+	an.Instrs(fn, func(in ssa.Instruction) {
+		if ci, ok := in.(ssa.CallInstruction); ok && ci.Common().StaticCallee() == nil && !ci.Common().IsInvoke() && isFieldNamed(ci.Common().Value, "SendFunc") {
+			send = in
+		}
+	})
+	if send == nil {
+		c.Lost("the call through Servent.SendFunc in RunCommand")
+		return
+	}
+	c.Ob("(*core/controlcommands.Servent).RunCommand|registered-before-sent", send.Pos(), an.Dominates(reg, send),
+		"the command is handed to the scheduler before the call is registered as pending: a reply that is processed in between finds no pending call, is dropped as unknown, and the target is reported as not having answered")
+}
+
+// R12k: Enqueue answers nil only when the entry is on the queue - only then will exactly one answer arrive on the
+// callback. A nil answer for an entry that was not queued leaves the caller waiting for ever.
+func r12k(c *an.Ctx) {
+	c.Rule("R12k", "Enqueue returns nil only after the entry was put on the queue", 1)
+	fn := c.MustFn(ccPkg, "CommandQueue.Enqueue")
+	if fn == nil {
+		return
+	}
+	c.Subject()
+	isQueue := func(v ssa.Value) bool { return isFieldNamed(v, "q") }
+	var sends []ssa.Instruction
+	an.Instrs(fn, func(in ssa.Instruction) {
+		if s, ok := in.(*ssa.Send); ok && isQueue(s.Chan) {
+			sends = append(sends, in)
+		}
+	})
+	var bad []string
+	n := 0
+	for _, r := range an.Returns(fn) {
+		if len(r.Results) != 1 || !an.IsNilConst(r.Results[0]) {
+			continue
+		}
+		n++
+		okRet := false
+		for _, s := range sends {
+			if an.Dominates(s, r) {
+				okRet = true
+			}
+		}
+		if !okRet {
+			okRet = an.GuardedByAll(r.Block(), func(a an.Atom) bool {
+				ex, isEx := a.X.(*ssa.Extract)
+				if !isEx || ex.Index != 0 || a.Op != token.EQL || a.Y == nil {
+					return false
+				}
+				sel, isSel := ex.Tuple.(*ssa.Select)
+				k, isK := an.ConstInt(a.Y)
+				return isSel && isK && int(k) < len(sel.States) && sel.States[k].Dir == types.SendOnly && isQueue(sel.States[k].Chan)
+			})
+		}
+		if !okRet {
+			bad = append(bad, c.PosStr(lastPos(r.Block())))
+		}
+	}
+	sort.Strings(bad)
+	c.Ob("(*core/controlcommands.CommandQueue).Enqueue|nil-only-when-queued", fn.Pos(), len(bad) == 0 && n > 0,
+		"Enqueue can return nil (at %v) although the entry was not put on the queue (%d nil returns examined): no answer will ever arrive on the callback the caller then waits on", bad, n)
 }
 
 func r12e(c *an.Ctx) {
@@ -562,4 +627,87 @@ func r12i(c *an.Ctx) {
 		}
 	}
 	c.Ob(ccPkg+"|slot-released|scanned", token.NoPos, n >= 10, "functions of the control-command package scanned for unbalanced channel semaphores: %d", n)
+}
+
+// R12j: what the queue hands to the caller is what commit built - one entry per target, each carrying that target's
+// own outcome. Substituting another response when commit reported an error erases the per-target entries (and with
+// them the distinction between critical and non-critical targets the task manager draws from them). Only a nil
+// response may be replaced.
+func r12j(c *an.Ctx) {
+	c.Rule("R12j", "queue loop: the response delivered to the caller is the one commit returned (only a nil response may be replaced)", 1)
+	fn := c.MustFn(ccPkg, "CommandQueue.Start")
+	if fn == nil {
+		return
+	}
+	commit := c.MustFn(ccPkg, "CommandQueue.commit")
+	if commit == nil {
+		return
+	}
+	n := 0
+	for _, f := range an.WithAnon(fn) {
+		for _, ci := range an.CallsTo(f, commit) {
+			call, ok := ci.(*ssa.Call)
+			if !ok {
+				continue
+			}
+			var resp ssa.Value
+			for _, r := range *call.Referrers() {
+				if ex, isEx := r.(*ssa.Extract); isEx && ex.Index == 0 {
+					resp = ex
+				}
+			}
+			an.Instrs(f, func(in ssa.Instruction) {
+				snd, isSend := in.(*ssa.Send)
+				if !isSend || !strings.HasSuffix(snd.X.Type().String(), "MesosCommandResponse") {
+					return
+				}
+				n++
+				c.Subject()
+				var bad []string
+				var check func(v ssa.Value, depth int)
+				check = func(v ssa.Value, depth int) {
+					if v == resp && resp != nil {
+						return
+					}
+					if phi, isPhi := v.(*ssa.Phi); isPhi && depth < 4 {
+						for i, e := range phi.Edges {
+							if e == resp {
+								continue
+							}
+							// another value: only where the response is known to be nil
+							nilOnEdge := resp != nil
+							for _, alt := range an.EdgeAlts(phi.Block().Preds[i], phi.Block()) {
+								has := false
+								for _, a := range alt {
+									if a.Op == token.EQL && a.Y != nil && ((a.X == resp && an.IsNilConst(a.Y)) || (a.Y == resp && an.IsNilConst(a.X))) {
+										has = true
+									}
+								}
+								if !has {
+									nilOnEdge = false
+								}
+							}
+							if nilOnEdge {
+								continue
+							}
+							if _, inner := e.(*ssa.Phi); inner {
+								check(e, depth+1)
+								continue
+							}
+							bad = append(bad, c.PosStr(lastPos(phi.Block().Preds[i])))
+						}
+						return
+					}
+					bad = append(bad, c.PosStr(snd.Pos()))
+				}
+				check(snd.X, 0)
+				sort.Strings(bad)
+				c.Ob(fmt.Sprintf("(*core/controlcommands.CommandQueue).Start[loop]|callback#%d|answer-is-commits-response", n), snd.Pos(), len(bad) == 0,
+					"the response sent to the caller is not always the one commit returned (other value assigned at %v while commit's response may be non-nil): the per-target outcomes - which targets answered, which failed, and whether those were critical - are replaced by a single command-level answer", bad)
+			})
+		}
+	}
+	if n == 0 {
+		c.Lost("the send of commit's response to the entry's callback in CommandQueue.Start")
+	}
 }
